@@ -241,6 +241,28 @@ def _pairs(arg):
     return {arg[i]: arg[i + 1] for i in range(0, len(arg), 2)}
 
 
+# Caller-owned rename mappings.  A rename with several pairs is called as op(mapping, **kwargs) where `mapping`
+# is ONE dict object per leading pair, owned by the caller and reused by every such call of the whole replay:
+# an operation that writes into its argument changes what later calls (on other objects) receive.
+SHARED_MAPPINGS = {}
+ARG_MUTATIONS = []
+
+
+def _rename_call(recv, name, pairs):
+    if len(pairs) < 2:
+        return getattr(recv, name)(pairs)
+    first = next(iter(pairs))
+    m = SHARED_MAPPINGS.setdefault((name, first, pairs[first]), {first: pairs[first]})
+    before = dict(m)
+    try:
+        return getattr(recv, name)(m, **{a: b for a, b in pairs.items() if a != first})
+    finally:
+        if m != before:
+            ARG_MUTATIONS.append((name, before, dict(m)))
+            m.clear()
+            m.update(before)
+
+
 def api_apply(cat, op, recv, k):
     name, arg = op["op"], op["arg"]
     if name == "bind":
@@ -257,10 +279,8 @@ def api_apply(cat, op, recv, k):
         return recv.as_node()
     if name == "with_name":
         return recv.with_name(arg[0])
-    if name == "with_inputs":
-        return recv.with_inputs(_pairs(arg))
-    if name == "with_outputs":
-        return recv.with_outputs(_pairs(arg))
+    if name in ("with_inputs", "with_outputs"):
+        return _rename_call(recv, name, _pairs(arg))
     if name == "map_over":
         return recv.map_over(arg[0])
     raise ValueError(name)
@@ -412,6 +432,12 @@ class Replayer:
         except Exception as e:  # noqa: BLE001 - the chain cannot be rebuilt (only on a broken tree)
             return ["chain-rebuild:" + type(e).__name__], {}
 
+    def _arg_mutations(self, hist, op):
+        while ARG_MUTATIONS:
+            name, before, after = ARG_MUTATIONS.pop()
+            self._find(f"caller-argument-modified:{name}", hist,
+                       f"{name}(mapping, **kwargs) changed the caller's mapping object from {before} to {after}")
+
     # -- one step on a pool; returns False when the pool may be contaminated
     def step(self, pool, hist, abs_objs, op, abs_new, check=True):
         """Execute op (the last element of hist) on the pool.  abs_objs: abstract objects of the live
@@ -433,6 +459,8 @@ class Replayer:
             except Exception as e:  # noqa: BLE001
                 self._rejected(hist, op, e)
                 return False
+            finally:
+                self._arg_mutations(hist, op)
             self.stats["new_objects"] += 1
             if new is recv or any(new is o for o in pool.objs):
                 self._find(f"not-a-new-object:{op['op']}", hist, f"{op['op']} returned an existing object")
@@ -565,6 +593,8 @@ class Replayer:
             except Exception as e:  # noqa: BLE001
                 self._rejected(hist, op, e)
                 return
+            finally:
+                self._arg_mutations(hist, op)
             self.stats["new_objects"] += 1
             if any(new is o for o in pool.objs):
                 self._find(f"not-a-new-object:{op['op']}", hist, f"{op['op']} returned an existing object")
